@@ -92,3 +92,6 @@ mod crypto;
 mod mpc;
 #[allow(dead_code)]
 mod utils;
+#[cfg(polytune_verif)]
+#[doc(hidden)]
+pub mod verif;
